@@ -1009,7 +1009,7 @@ func C19(c *Ctx) error {
 		// required listing, per message
 		var rf []map[string]any
 		for _, fd := range m.Fields {
-			rf = append(rf, map[string]any{"json": ir.JSONName(fd.F.Name), "required": fd.F.Rules.Required})
+			rf = append(rf, map[string]any{"json": fd.F.JSON(), "required": fd.F.Rules.Required})
 		}
 		if !crashed {
 			jobs = append(jobs, &fieldJob{m: m, reqList: reqList})
@@ -1018,7 +1018,7 @@ func C19(c *Ctx) error {
 		for _, fd := range m.Fields {
 			j := &fieldJob{m: m, fd: fd, crashed: crashed, reqList: reqList}
 			if !crashed {
-				j.real = props[ir.JSONName(fd.F.Name)]
+				j.real = props[fd.F.JSON()]
 			}
 			jobs = append(jobs, j)
 			card := fd.Card
@@ -1089,7 +1089,7 @@ func C19(c *Ctx) error {
 		// required listing and format name (oracle)
 		listed := false
 		for _, n := range j.reqList {
-			if n == ir.JSONName(fd.F.Name) {
+			if n == fd.F.JSON() {
 				listed = true
 			}
 		}
